@@ -373,6 +373,12 @@ func genC05(t *rapid.T) c05Case {
 				at++
 			}
 			// an ASCII variable cannot be combined with anything: also an error, fine; keep position right after type/size
+			if kind == model.A && at < len(toks[mi]) && toks[mi][at].Text != ">" && rapid.IntRange(0, 3).Draw(t, "strayVariable") == 3 {
+				// a variable in front of the literals (or of the variable) of an ASCII item: an ASCII item is either text or ONE
+				// variable, so nothing written may be dropped or kept silently
+				bad = badLiteral{Text: "stray_variable_9", Why: "a variable next to other values in an ASCII item"}
+				labels["bad:stray-variable-in-ascii-item"] = true
+			}
 			nt := append([]model.Tok(nil), toks[mi][:at]...)
 			nt = append(nt, model.Tok{Text: bad.Text, Kind: "num"})
 			nt = append(nt, toks[mi][at:]...)
